@@ -572,7 +572,8 @@ def lower_exceptions(sl, ret_default, kinds, flag="verif_exc"):
     b0 = text.index("{")
     head, body = text[:b0 + 1], text[b0 + 1:]
     body = re.sub(r"\bthrow\s+([\w:]+)\s*(\{[^;]*\}|\([^;]*\))\s*;", throw_repl, body)
-    if re.search(r"\bthrow\b", body):
+    tsb = Source("<body>", text=body)
+    if any(tsb.mask[m.start()] == "c" for m in re.finditer(r"\bthrow\b", body)):
         raise ExtractionBroken(f"slice {sl.name}: a throw statement rule L26 cannot lower")
 
     def add_checks(seg, action):
